@@ -15,7 +15,7 @@ T = {
  'C02': ('blockwise_sem: for every symmetry, rank, table, sparsity and axes choice the block-sparse contraction equals the dense contraction in (charge, offset) '
          'coordinates and as to_dense(result) = tensordot(to_dense a, to_dense b); charge/index-table theorems, negative axes, matmul, trace, single-array einsum, '
          'scalar and no-aligned-blocks cases; fused = blockwise at value level via C06',
-         'Coq refinement proof (block-sparse -> dense) + cases.v correspondence + numpy oracle on own dense embedding'),
+         'Coq refinement proof (block-sparse -> dense) over translated source (_tensordot_blockwise, drop_misaligned_sectors: Gen/BlockwiseGen.v proved Leibniz-equal to the model) + cases.v correspondence + numpy oracle on own dense embedding'),
  'C03': ('the GENERATED Koszul routine equals the odd-odd inversion parity for every permutation; value-level theorems for transpose / phase operations; '
          'contraction sign formula and element-level formula in all modes; matmul/trace/einsum values; independent dense graded reference as oracle',
          'Coq proof over translated source (PhasePerm) + hand model correspondence + independent graded-tensor oracle'),
@@ -36,11 +36,11 @@ T = {
          'Coq proof over translated source (calc_reshape_args: Gen/ReshapeGen.v proved equal to the model for all inputs) + finite-domain decision (bound in the statement) + unbounded array-level theorems + exhaustive correspondence + array round-trip oracle'),
  'C08': ('every listed structural / elementwise / arithmetic operation commutes with the coordinate semantics and with to_dense for every rank, table, symmetry and '
          'ring; raise conditions characterised; interface functions are plain forwarders (generated table)',
-         'Coq refinement proofs + generated interface table + cases.v correspondence + numpy oracle'),
+         'Coq refinement proofs over translated source (_binary_blockwise_op, apply_to_arrays and the dunder policy table: Gen/BinopGen.v equal to the model; interface forwarders) + cases.v correspondence + numpy oracle'),
  'C09': ('sync is idempotent and value-preserving; every phase/structural operation and every finite program of them gives equivalent results on a lazy array and its '
          'synchronised copy; tensordot/matmul/trace/fuse/unfuse/einsum, eigh/solve/qr/svd and the reductions item/sum/max/min/abs/clip/norm (C09c) are congruences; '
          'item reads the signed value exactly once; the pre-fix readers refuted',
-         'Coq congruence proofs by induction over programs + cases.v correspondence (strict sign tables, reductions) + lazy-vs-synced oracle'),
+         'Coq congruence proofs by induction over programs, sign-table methods translated from the source (Gen/PhasesGen.v equal to the model) + cases.v correspondence (strict sign tables, reductions) + lazy-vs-synced oracle'),
  'C10': ('conj∘conj, dagger∘dagger (exact law incl. the dual-leg option), adjoint = conjugate then reversal; NORM: conj(x)·x = Σ|x|² (both orders, general label lists); '
          'conj is an anti-homomorphism of tensordot; two-tensor and chain network norms',
          'Coq algebraic-law proofs + cases.v correspondence + integer norm oracle along random routes'),
@@ -52,7 +52,7 @@ T = {
          'Coq proof over oracle contracts (partial) + numpy oracle on own dense embedding'),
  'C13': ('selection logic tied to the code: kept >= discarded, cutoff maximal and monotone (incl. above the total weight), bond limit with exact tie characterisation, '
          'no-cutoff distribution; truncated factors valid, absorb modes equal, truncated product = kept part of the SVD sum, residual = discarded part, error identity',
-         'Coq proofs over exact model + bit-exact correspondence with stubbed SVD + real-SVD oracle'),
+         'Coq proofs over translated source (selection region of svd_truncated, calc_sub_max_bonds, argsort: Gen/TruncGen.v equal to the model over exact rationals) + bit-exact correspondence with stubbed SVD + real-SVD oracle'),
  'C14': ('frame theorem for a heap language (scripts accepted by an ownership analysis leave every pre-existing dict/buffer unchanged), every operation script '
          'accepted, programs_frame by induction; inplace=True equals the out-of-place result; mutation sites regenerated from the source',
          'Coq frame proof over heap scripts + generated mutation-site scan + alias-graph correspondence'),
@@ -64,10 +64,10 @@ T = {
          'Coq round-trip proofs + generated constructor defaults + correspondence + numpy projection oracle'),
  'C17': ('GroupLaws for the five symmetries on definitions regenerated from symmetries.py (all integers / all valid charges); sector enumeration exact '
          '(none missing, extra or repeated) for every symmetry with the laws, every rank',
-         'Coq proof over translated source + vm_compute correspondence'),
+         'Coq proof over translated source (group operations, gen_valid_sectors, is_valid_sector) + vm_compute correspondence'),
  'C18': ('the library algorithm for local operator elements equals the Jordan-Wigner vacuum expectation value (anticommutation, sort invariance, fuel sufficient); '
          'product formula with the basis sign on complete bases; generated builders Hermitian with parity-correct charge maps',
-         'Coq proof over hand model + generated builder data + independent Jordan-Wigner oracle'),
+         'Coq proof over translated source (build_local_fermionic_elements: Gen/LocalAlgGen.v equal to the model; builder data) + independent Jordan-Wigner oracle'),
  'C19': ('coordination = degree for every edge list, factory specs, on-site totals, edge sums equal the lattice Hamiltonian as formal polynomials '
          '(Hubbard, spinless, TFIM), on definitions regenerated from hamiltonians.py; bond-name collision refuted (F15)',
          'Coq proof over translated source + correspondence + independent Jordan-Wigner oracle'),
